@@ -372,6 +372,7 @@ func C18(c *core.Ctx) {
 	c18Consult(c)
 	c18Tags(c, a)
 	c18ComboRegime(c)
+	c18Exact(c)
 }
 
 // c18ComboRegime: the regime whose tables a combo's category and rate are
